@@ -80,6 +80,9 @@ package storage
 //@ func (*Manager).recoverFromWAL
 //@   requires m.wal != nil && m.wal.nextSequence >= 1 && m.lastSeqNum == 0 && m.memTablePool != nil
 //@   ensures[C08] err == nil && m.lastSeqNum < wal.MaxSequenceNumber ==> m.wal != nil && m.wal.nextSequence > m.lastSeqNum && m.wal.nextSequence >= 1
+// C10: log files are moved aside only when replay saw damage or the recovery handler failed - never for a log that
+// merely ends early (a torn tail), and never for a readable log.
+//@   check[C10] before call os.Rename#1: walDamage > old(walDamage) || walHandlerErrs > old(walHandlerErrs)
 //@ func (*Manager).GetStorageStats
 //@   requires lockset() && m.memTablePool != nil
 //@   ensures[C08,C06] m.lastSeqNum == old(m.lastSeqNum)
